@@ -212,13 +212,9 @@ Proof.
 Qed.
 
 Lemma scan_hit_lt ko : forall xs n0 n,
-  (fix go (l : list (option obj)) (n : nat) : res (option nat) :=
-     match l with
-     | [] => Ok None
-     | s :: t => cres <- comp_elem s ko ;; if is_eq cres then Ok (Some n) else go t (S n)
-     end) xs n0 = Ok (Some n) -> (n0 <= n < n0 + length xs)%nat.
+  map_scan ko xs n0 = Ok (Some n) -> (n0 <= n < n0 + length xs)%nat.
 Proof.
-  induction xs as [|s t IH]; intros n0 n E; [discriminate|].
+  induction xs as [|s t IH]; intros n0 n E; [discriminate|]. cbn [map_scan] in E. fold (map_scan ko) in E.
   destruct (comp_elem s ko) as [c|]; cbn [bind] in E; [|discriminate].
   destruct (is_eq c).
   - inv E. cbn [length]. lia.
@@ -251,6 +247,35 @@ Proof.
       { unfold nth_comp in N4. destruct cs as [|c0 [|c1 [|c2 [|c3 [|c4 t4]]]]]; cbn in *; try discriminate; lia. }
       rewrite fp_list_upd by assumption. unfold nth_comp in N3. rewrite N3. cbn [fp_opt str_obj footprint optb]. lia.
   - rewrite (comp_text_none _ E4). destruct o3; lia.
+Qed.
+
+Lemma map_set_inv b w m ko vo w' r :
+  map_set pcre w m ko vo = Ok (w', r) -> Inv b w -> Inv b w'.
+Proof.
+  unfold map_set. intros E I.
+    destruct (get w m) as [mo|] eqn:Gm; cbn [bind] in E; [|discriminate].
+    destruct (as_cont mo) as [[[[[i c] a] al] xs]|] eqn:Ac; cbn [bind] in E; [|discriminate].
+    destruct (want_iface i IMap); cbn [bind] in E; [|discriminate].
+    match type of E with (if ?c then _ else _) = _ => destruct c end; [discriminate|].
+    destruct (map_scan ko xs O) as [hit|] eqn:Hit; cbn [bind] in E; [|discriminate].
+    destruct (copy pcre vo) as [v'|] eqn:Cv; cbn [bind] in E; [|discriminate].
+    apply as_cont_ok in Ac. subst mo. apply get_ok in Gm.
+    pose proof (copy_footprint pcre vo v' Cv) as Fv.
+    destruct hit as [n|].
+    + apply scan_hit_lt in Hit. destruct (nth n xs None) as [[]|] eqn:Nn; try discriminate.
+      pose proof (relabel_footprint v' (naddr w)) as Fr. destruct (relabel v' (naddr w)) as [v2 na]. cbn [fst] in Fr.
+      inv E. unfold Inv in *. cbn [ledger held]. erewrite sum_fp_put by eassumption.
+      rewrite !footprint_cont_split, fp_list_upd, upd_length', Nn by lia.
+      cbn [fp_opt]. rewrite !footprint_pair, rel_opt_fp. cbn [fp_opt]. lia.
+    + destruct (copy pcre ko) as [k'|] eqn:Ck; cbn [bind] in E; [|discriminate].
+      pose proof (copy_footprint pcre ko k' Ck) as Fk.
+      pose proof (relabel_footprint (OPair (Some k') (Some v')) (naddr w)) as Fr.
+      destruct (relabel (OPair (Some k') (Some v')) (naddr w)) as [pr na]. cbn [fst] in Fr.
+      destruct (c_insert c pr xs) as [xs'|] eqn:Ci; cbn [bind] in E; [|discriminate]. inv E.
+      destruct (c_insert_fp c pr xs xs' Ci) as (A & B).
+      unfold Inv in *. cbn [ledger held]. erewrite sum_fp_put by eassumption.
+      rewrite !footprint_cont_split, A, B, Fr, footprint_pair. cbn [fp_opt].
+      destruct c; cbn [items_cost node_cost]; destruct al; lia.
 Qed.
 
 Theorem step_inv b w op w' r :
@@ -394,31 +419,27 @@ Proof.
     destruct (rem_first po xs) as [[xs1 r1]|] eqn:R; cbn [bind] in F; [|discriminate].
     pose proof (rem_first_fp po xs xs1 r1 R) as P. destruct r1; inv F. cbn [fp_opt]. tauto.
   - (* MSet *)
-    destruct (get w m) as [mo|] eqn:Gm; cbn [bind] in E; [|discriminate].
-    destruct (get w k) as [ko|] eqn:Gk; cbn [bind] in E; [|discriminate].
-    destruct (get w v) as [vo|] eqn:Gv; cbn [bind] in E; [|discriminate].
-    destruct (as_cont mo) as [[[[[i c] a] al] xs]|] eqn:Ac; cbn [bind] in E; [|discriminate].
+    destruct (get w m) as [mo|]; cbn [bind] in E; [|discriminate].
+    destruct (get w k) as [ko|]; cbn [bind] in E; [|discriminate].
+    destruct (get w v) as [vo|]; cbn [bind] in E; [|discriminate].
+    match type of E with (if ?c then _ else _) = _ => destruct c end; [discriminate|].
+    eapply map_set_inv; eauto.
+  - (* MSetPair *)
+    destruct (get w m) as [mo|]; cbn [bind] in E; [|discriminate].
+    destruct (get w p) as [po|]; cbn [bind] in E; [|discriminate].
+    match type of E with (if ?c then _ else _) = _ => destruct c end; [discriminate|].
+    destruct po as [| | | |[pk|] [pv|]| | | | | |]; try discriminate.
+    eapply map_set_inv; eauto.
+  - (* MSetOwn *)
+    destruct (get w m) as [mo|]; cbn [bind] in E; [|discriminate].
+    destruct (get w k) as [ko|]; cbn [bind] in E; [|discriminate].
+    destruct (as_cont mo) as [[[[[i c] a] al] xs]|]; cbn [bind] in E; [|discriminate].
     destruct (want_iface i IMap); cbn [bind] in E; [|discriminate].
     match type of E with (if ?c then _ else _) = _ => destruct c end; [discriminate|].
-    match type of E with (x <- ?S ;; _) = _ => destruct S as [hit|] eqn:Hit end; cbn [bind] in E; [|discriminate].
-    destruct (copy pcre vo) as [v'|] eqn:Cv; cbn [bind] in E; [|discriminate].
-    apply as_cont_ok in Ac. subst mo. apply get_ok in Gm.
-    pose proof (copy_footprint pcre vo v' Cv) as Fv.
-    destruct hit as [n|].
-    + apply scan_hit_lt in Hit. destruct (nth n xs None) as [[]|] eqn:Nn; try discriminate.
-      pose proof (relabel_footprint v' (naddr w)) as Fr. destruct (relabel v' (naddr w)) as [v2 na]. cbn [fst] in Fr.
-      inv E. unfold Inv in *. cbn [ledger held]. erewrite sum_fp_put by eassumption.
-      rewrite !footprint_cont_split, fp_list_upd, upd_length', Nn by lia.
-      cbn [fp_opt]. rewrite !footprint_pair, rel_opt_fp. cbn [fp_opt]. lia.
-    + destruct (copy pcre ko) as [k'|] eqn:Ck; cbn [bind] in E; [|discriminate].
-      pose proof (copy_footprint pcre ko k' Ck) as Fk.
-      pose proof (relabel_footprint (OPair (Some k') (Some v')) (naddr w)) as Fr.
-      destruct (relabel (OPair (Some k') (Some v')) (naddr w)) as [pr na]. cbn [fst] in Fr.
-      destruct (c_insert c pr xs) as [xs'|] eqn:Ci; cbn [bind] in E; [|discriminate]. inv E.
-      destruct (c_insert_fp c pr xs xs' Ci) as (A & B).
-      unfold Inv in *. cbn [ledger held]. erewrite sum_fp_put by eassumption.
-      rewrite !footprint_cont_split, A, B, Fr, footprint_pair. cbn [fp_opt].
-      destruct c; cbn [items_cost node_cost]; destruct al; lia.
+    destruct (map_scan ko xs O) as [[n|]|]; cbn [bind] in E; [| |discriminate].
+    + destruct (nth n xs None) as [[| | | |[pk|] [pv|]| | | | | |]|]; try discriminate.
+      eapply map_set_inv; eauto.
+    + inv E. exact I.
   - (* MRemove *)
     destruct (get w k) as [ko|]; cbn [bind] in E; [|discriminate].
     eapply take_inv; [|exact E|exact I]. intros xs xs' x F; cbv beta in F.
@@ -436,6 +457,12 @@ Proof.
     destruct (as_cont co) as [[[[[i k] a] al] xs]|]; cbn [bind] in E; [|discriminate].
     match type of E with Ok ?hb = _ => destruct hb as [w1 r1] eqn:H end. inv E.
     eapply hand_back_inv; [exact H|]. unfold Inv in I. cbn [fp_opt footprint]. lia.
+  - (* Query *)
+    destruct (get w c) as [co|]; cbn [bind] in E; [|discriminate].
+    destruct (get w h) as [po|]; cbn [bind] in E; [|discriminate].
+    destruct (as_cont co) as [[[[[i k] a] al] xs]|]; cbn [bind] in E; [|discriminate].
+    match type of E with (if ?c then _ else _) = _ => destruct c end; [discriminate|].
+    destruct (query_walk i po xs); inv E. exact I.
 Qed.
 
 (* ---- programs ---- *)
